@@ -75,6 +75,16 @@ CLAIMS["C07"] = dict(
    text="Decides structural necessary conditions of faithful conversion: label writer/reader tables invert each other; no narrowing parse on the SemVer path; every u64->u32 parse on the infallible PEP 440 path is reported (5 recorded findings: values above u32::MAX are silently dropped/replaced/moved); no constant fallback for failed numeric parses; PEP 440 -> Zerv and SemVer -> Zerv wire each field to the variable of the same meaning; render and tag parsing share the From impls. Round trips and fixed points are value laws and are not decided.",
    note="Trusted: rustc MIR, zfacts, rules/c07.py. Five genuine defects of the no-silent-change clause are listed in known_findings.json (not repairable by a small patch: needs a fallible conversion API).",
    ref="4/C07")
+CLAIMS["C04"] = dict(
+   technique="constant-template reconstruction from MIR (symbolic string evaluation of String+&str / format_args / helper calls per path) with guards compared by truth table; guard-set, origin and who-writes rules for the branch-rule code; integer-width vs accepted-length comparison",
+   text="Decides that the Tera templates flow assembles from constants equal the documented table for every option combination (patch / label / number / post / dev guards and contents per post mode, None otherwise, --post default), that 'prefix/*' keeps its separator and numbers are searched only after the prefix, that the first matching rule wins, that explicit flags beat rule values field by field, that the accepted hash length fits the parsing integer (recorded finding: 10 > 9 safe digits of u32) and that hash_int depends only on (value, length, allow_leading_zero) with fixed hasher keys. The composed result on concrete tags and hash_int's digit count are value laws and are not decided.",
+   note="Trusted: rustc MIR, zfacts, rules/flowtpl.py. Assumes Tera's boolean operators and truthiness. One genuine defect (R04.5) is in known_findings.json.",
+   ref="4/C04")
+CLAIMS["C03"] = dict(
+   technique="truth-table implications between reconstructed flow guards, dominance ordering in run_flow_pipeline, exhaustive comparison of 'bumped' against 'printed' over the extracted tier decision tree and override_dirty table",
+   text="The ordering law itself (X.Y.Z < V < X.Y.(Z+1), strict growth) relates runtime values and is NOT decided. Decided are necessary conditions visible in code shape: no guard fires at a clean tag; a patch bump always carries a pre-release label (guard implication + validate() defaults the label and dominates bump construction); in every (mode, dirty, distance, tag shape, flag) case the label - and in commit mode the post number - that flow bumps is part of the tier the smart schema selects; commit-mode post grows by distance additively.",
+   note="Trusted: rustc MIR, zfacts, rules/flowtpl.py, tables.py. Thin claim by design: breaking any of these four conditions breaks the law, but they do not imply it.",
+   ref="4/C03")
 REASONS = {}
 
 def main():
